@@ -30,10 +30,11 @@ const (
 	FDumpNoBackfill // Dump with FeedNoBackfill: nothing to deliver, ends at once
 	FMultiDump      // Dump over both collections through Bucket.StartDCPFeed: the coalesced done channel closes
 	FCheckpoint     // backfill + live with a checkpoint prefix: when the store shuts down under it, its last checkpoint write fails
+	FMultiPartial   // multi-collection feed one of whose parts cannot start (unreadable checkpoint document in Y): the call fails, its done channel must still close
 	NFeedKinds
 )
 
-var feedKindNames = []string{"live", "backfill+live", "dump", "multi-collection", "dump-nobackfill", "multi-collection-dump", "checkpointed"}
+var feedKindNames = []string{"live", "backfill+live", "dump", "multi-collection", "dump-nobackfill", "multi-collection-dump", "checkpointed", "multi-collection-partial"}
 
 func isDumpKind(k int) bool { return k == FDump || k == FDumpNoBackfill || k == FMultiDump }
 
@@ -49,6 +50,7 @@ type lfeed struct {
 	after       int             // callbacks after done was closed
 	termed      bool
 	expectEnded bool
+	partial     bool // its start was refused for one collection; whether the other part runs is not pinned, only that done closes
 }
 
 func (f *lfeed) cb(e sgbucket.FeedEvent) bool {
@@ -149,6 +151,17 @@ func (s *FeedScenario) Run(tmp string, r *rng.R) {
 			args.Scopes = map[string][]string{sgbucket.DefaultScope: {sgbucket.DefaultCollection}, collY.Scope: {collY.Collection}}
 			f.handle = 0
 			err = handles[0].StartDCPFeed(ctx, args, f.cb, nil)
+		case FMultiPartial:
+			_ = colls[0][1].SetRaw(fmt.Sprintf("cpj:f%d", i), 0, nil, []byte("not a checkpoint {"))
+			args.Backfill, args.CheckpointPrefix = sgbucket.FeedResume, "cpj"
+			args.Scopes = map[string][]string{sgbucket.DefaultScope: {sgbucket.DefaultCollection}, collY.Scope: {collY.Collection}}
+			f.handle = 0
+			if perr := handles[0].StartDCPFeed(ctx, args, f.cb, nil); perr != nil {
+				f.partial = true // refused, as it should be
+				s.Count("multi_collection_feeds_with_a_part_that_cannot_start", 1)
+			} else {
+				f.kind = FMulti
+			}
 		case FDumpNoBackfill:
 			args.Dump = true
 			err = colls[f.handle][f.coll].StartDCPFeed(ctx, args, f.cb, nil)
@@ -238,7 +251,7 @@ func (s *FeedScenario) Run(tmp string, r *rng.R) {
 			}
 			for _, f := range feeds {
 				covers := f.coll == ci || f.kind == FMulti
-				if !covers || isDumpKind(f.kind) {
+				if !covers || isDumpKind(f.kind) || f.partial {
 					continue
 				}
 				ended := f.termed
@@ -311,7 +324,7 @@ func (s *FeedScenario) Run(tmp string, r *rng.R) {
 				}
 				yDropped = true
 				for _, f := range feeds {
-					if f.coll == 1 && f.kind != FMulti && f.kind != FMultiDump && !f.termed {
+					if f.coll == 1 && f.kind != FMulti && f.kind != FMultiDump && !f.partial && !f.termed {
 						f.termed, f.expectEnded = true, true // its collection is gone
 					}
 				}
@@ -331,7 +344,7 @@ func (s *FeedScenario) Run(tmp string, r *rng.R) {
 				if err := handles[h].DropDataStore(collY); err == nil {
 					yDropped = true
 					for _, f := range feeds {
-						if f.coll == 1 && f.kind != FMulti && f.kind != FMultiDump && !f.termed {
+						if f.coll == 1 && f.kind != FMulti && f.kind != FMultiDump && !f.partial && !f.termed {
 							f.termed, f.expectEnded = true, true
 						}
 					}
@@ -398,6 +411,18 @@ func (s *FeedScenario) Run(tmp string, r *rng.R) {
 		}
 		s.Cell("action|" + actionKind(a) + "|" + ifs(s.Disk, "disk", "mem"))
 		check(a)
+	}
+	// a feed whose start was refused for one of its collections: once its terminator is closed (or the store is
+	// gone) the caller's done channel must close like any other
+	fin := false
+	for _, f := range feeds {
+		if f.partial && !f.termed {
+			close(f.term)
+			f.termed, f.expectEnded, fin = true, true, true
+		}
+	}
+	if fin {
+		check("the terminator of a partly refused feed")
 	}
 	// store shut down? then no feed goroutine may be left
 	if deleted || (s.Disk && !open[0] && !open[1]) {
